@@ -627,7 +627,7 @@ def fresh_in_new_interpreter(fake_date=None):
         )
     code += "from mc import env\nimport checks.c19_purity as c\nc.dump_fresh()\n"
     e = dict(os.environ, PYTHONHASHSEED=str(fake_date[4] if fake_date else 1))
-    r = subprocess.run([sys.executable, "-B", "-c", code], capture_output=True, text=True, env=e, cwd=env.VERIF)
+    r = subprocess.run([sys.executable] + (["-O"] if sys.flags.optimize else []) + ["-B", "-c", code], capture_output=True, text=True, env=e, cwd=env.VERIF)
     for line in r.stdout.splitlines():
         if line.startswith("FRESH-JSON:"):
             return json.loads(line[len("FRESH-JSON:"):])
